@@ -4,6 +4,8 @@ import (
 	"bytes"
 	"crypto/ecdh"
 	"fmt"
+	"os"
+	"path/filepath"
 	"strings"
 	"testing"
 
@@ -328,6 +330,56 @@ func c09Typos(t *rapid.T) c09Str {
 	return c09Str{S: string(b), Class: fmt.Sprintf("typo-%d", len(used)), MustReject: string(b) != base, Native: true}
 }
 
+// through the commands: a recipient string given to age -r, an identity string
+// in a key file given to age-keygen -y, are accepted only in their one canonical spelling
+func c09CheckCLI(c c09Str, st *stats.Run) error {
+	bin := os.Getenv("VERIF_BIN")
+	if bin == "" || strings.ContainsAny(c.S, "\x00\n\r") || c.S == "" || strings.HasPrefix(c.S, "-") {
+		return nil
+	}
+	dir, err := os.MkdirTemp(".", "c09cli-")
+	if err != nil {
+		return pbt.Failf("C09/harness", "%v", err)
+	}
+	dir, _ = filepath.Abs(dir)
+	defer os.RemoveAll(dir)
+	env := []string{"PATH=/nonexistent", "HOME=" + dir}
+	asRecipient := strings.HasPrefix(strings.ToLower(c.S), "age1")
+	valid := func(hrp string) bool {
+		h, d, err := refage.Bech32Decode(c.S)
+		return err == nil && h == hrp && len(d) == 32 && refage.Bech32Encode(hrp, d) == c.S
+	}
+	var code int
+	var stderr string
+	var ok bool
+	if asRecipient {
+		if strings.HasPrefix(strings.ToLower(c.S), "age1") && strings.Count(c.S, "1") >= 2 && !valid("age") {
+			// could be a plugin recipient string (age1NAME1...): the command would look for a plugin; leave those to C17
+			if _, _, perr := plugin.ParseRecipient(c.S); perr == nil {
+				return nil
+			}
+		}
+		os.WriteFile(filepath.Join(dir, "in.txt"), []byte("x"), 0o644)
+		code, _, stderr = runCLI(dir, env, nil, filepath.Join(bin, "age"), "-r", c.S, "-o", "out.age", "in.txt")
+		ok = valid("age")
+	} else {
+		os.WriteFile(filepath.Join(dir, "key.txt"), []byte(c.S+"\n"), 0o600)
+		code, _, stderr = runCLI(dir, env, nil, filepath.Join(bin, "age-keygen"), "-y", "key.txt")
+		ok = valid("AGE-SECRET-KEY-")
+	}
+	if code == -2 {
+		return nil
+	}
+	st.Case(true, stats.Hash([]byte(c.S)), "cli", "cli:"+c.Class, fmt.Sprintf("cli:recipient=%v", asRecipient), fmt.Sprintf("cli:valid=%v", ok))
+	if ok && code != 0 {
+		return pbt.Failf("C09/valid-rejected", "the command rejects the valid key string %q: %s", c.S, trunc([]byte(stderr)))
+	}
+	if !ok && code == 0 {
+		return pbt.Failf("C09/malformed-accepted", "the command accepts %q (class %s), which is not the canonical spelling of a 32-byte key", c.S, c.Class)
+	}
+	return nil
+}
+
 func TestC09(t *testing.T) {
 	s := pbt.Start(t, "C09")
 	defer s.Finish()
@@ -429,6 +481,9 @@ func TestC09(t *testing.T) {
 		}
 		s.St.Exhaust("every position of 12 native strings replaced by each of 7 Unicode characters with ASCII case mappings", int64(n))
 	}, strCheck)
+	cliCheck := func(c c09Str) error { return c09CheckCLI(c, s.St) }
+	pbt.Rapid(s, "malformed-cli", s.N(150, 1000), c09Malformed, cliCheck)
+	pbt.Rapid(s, "typos-cli", s.N(150, 1000), c09Typos, cliCheck)
 	pbt.Rapid(s, "malformed", s.N(30000, 250000), c09Malformed, strCheck)
 	pbt.Rapid(s, "typos", s.N(30000, 250000), c09Typos, strCheck)
 }
